@@ -32,6 +32,11 @@ QPfxOf(x) == CASE x = 1 -> {<<>>, <<0>>, <<0, 255>>, <<255>>}
                [] x = 2 -> {<<>>, <<255>>}
                [] x = 3 -> {<<>>, <<0>>}
 
+\* tiny universe (edges with a two-write batch: every ordered pair of staged writes incl. put-then-delete of one key)
+TIdx == {1}
+TKeysOf(x) == {<<0>>, <<1>>}
+TPfxOf(x) == {<<>>, <<0>>}
+
 Depth == IF "VERIF_DEPTH" \in DOMAIN IOEnv THEN atoi(IOEnv.VERIF_DEPTH) ELSE 4
 
 \* the operation as the driver needs it (no expected results)
@@ -85,7 +90,7 @@ SSpec == GInit /\ [][SNext]_<<vars, hist>>
 
 StoreView == <<idx, u64, str, vec, pend>>
 
-KeySeqs == [x \in 1..Cardinality(Idx) |-> SetToSeq(KeysOf(x))]
+KeySeqs == [x \in 1..3 |-> IF x \in Idx THEN SetToSeq(KeysOf(x)) ELSE <<>>]   \* the driver always opens three indexes
 Scn(h) == [par |-> [keys |-> KeySeqs, vecidx |-> SetToSeq(VecIdx)], ops |-> h]
 \* reads whose answer does not depend on staged writes / fields are printed from the states without them only
 Heavy(r) == r.op \in {"iter", "first", "last", "hasmulti", "fill", "countfrom"}
